@@ -91,7 +91,9 @@ pub assume_specification<T, F: FnOnce(T) -> bool>[Option::<T>::is_some_and](o: O
     ensures match o { Some(x) => f.ensures((x,), r), None => !r };
 /// std: the absolute value of an i64 as a u64 (no overflow: |i64::MIN| fits)
 pub assume_specification[i64::unsigned_abs](x: i64) -> (r: u64) ensures r as int == (if x < 0 { -(x as int) } else { x as int });
-pub proof fn axiom_str_ext() ensures forall|a: &str, b: &str| #![trigger a@, b@] a@ =~= b@ ==> a == b { admit(); }
+// &str values with the same characters are equal (what a string-literal pattern compares) -- assumed axiom, as in unit coordinate
+#[verifier::external_body]
+pub proof fn axiom_str_ext() ensures forall|a: &str, b: &str| #![trigger a@, b@] a@ =~= b@ ==> a == b { }
 #[verifier::external_body]
 pub struct EnumValues { x: u8 }
 impl EnumValues {
